@@ -105,6 +105,10 @@ func c12Resources(sc c12Scen) (entry string, res map[string][]byte, order []stri
 		cs.Tracks = "v+a"
 	case "ts-va":
 		cs.Container = "ts"
+	case "fmp4-frags":
+		// several fragments per segment: the stream processor hands fragment n+1 to a track processor that is still
+		// pacing the samples of fragment n, one more hand-off where Close or a fault can find it
+		cs.Tracks, cs.Frags = "va", 3
 	case "ts-big":
 		// one segment with more video units than the per-track sample queue of the MPEG-TS processor holds (100): the
 		// stream processor blocks while handing samples over, which is one more place where Close can find it
@@ -271,6 +275,9 @@ func c12Harness(sc c12Scen) vsched.Harness {
 			for _, p := range tr.Panics {
 				add("panic:"+firstLibFrame(p), p)
 			}
+			if tr.Livelock != "" {
+				add("livelock", "a goroutine of the client spins instead of ending: "+tr.Livelock)
+			}
 			// every thread the client started must be finished once Wait() has yielded
 			var stuck []string
 			for _, t := range s.Threads() {
@@ -396,8 +403,8 @@ func c12Scens(tier string) []c12Scen {
 		bound = 2
 	}
 	for _, policy := range []int{0, 1, 2} {
-		for _, stream := range []string{"fmp4-va", "fmp4-v+a", "ts-va", "ll", "ts-big"} {
-			nreq := map[string]int{"fmp4-va": 4, "fmp4-v+a": 9, "ts-va": 3, "ll": 8, "ts-big": 2}[stream]
+		for _, stream := range []string{"fmp4-va", "fmp4-v+a", "ts-va", "ll", "ts-big", "fmp4-frags"} {
+			nreq := map[string]int{"fmp4-va": 4, "fmp4-v+a": 9, "ts-va": 3, "ll": 8, "ts-big": 2, "fmp4-frags": 4}[stream]
 			nseg := 2
 			for _, fault := range []string{"none", "404", "500", "neterr", "stall", "ontracks", "503stall", "timeout", "truncated"} {
 				if (fault == "503stall" || fault == "timeout" || fault == "truncated") && policy != 0 && tier != "thorough" {
